@@ -179,6 +179,32 @@ fn cmd_run(args: &[String]) -> i32 {
         eprintln!("HARNESS: run {}: {} ({} harness errors)", i, m, out.harness_errors.len());
         exit = 2;
     }
+    // reach: in the thorough tier a probe or fault kind that never fired means the workload does
+    // not reach what it claims to (harness error, not a violation)
+    if tier == "thorough" && exit == 0 {
+        let need_faults: &[&str] = if prop_s == "C10" {
+            &["op_rejected_err", "op_unwound", "batch_unwound_mid", "iter_panic_after_j", "iden_panic_in_render", "writer_error_at_k"]
+        } else {
+            &["iden_panic_in_render", "iden_panic_in_eq", "iden_panic_in_debug", "writer_error_at_k", "handle_dropped_while_shared", "nested_observation_in_render"]
+        };
+        let need_probes: &[&str] = if prop_s == "C10" {
+            &["failed_op_then_continue"]
+        } else {
+            &["take_of_nonempty_source", "clear_removed_something", "clear_kept_something", "composed_clone_of_live_handle", "composed_take_of_live_handle", "composed_move_of_live_handle", "self_reference_clone", "relative_checked_after_mutation"]
+        };
+        for k in need_faults {
+            if out.stats.faults.get(k).copied().unwrap_or(0) == 0 {
+                eprintln!("HARNESS: fault kind {} never fired in the thorough tier", k);
+                exit = 2;
+            }
+        }
+        for k in need_probes {
+            if out.stats.probes.get(k).copied().unwrap_or(0) == 0 {
+                eprintln!("HARNESS: reach probe {} stuck at zero in the thorough tier", k);
+                exit = 2;
+            }
+        }
+    }
     for (k, n) in &out.stats.known_findings {
         println!("KNOWN-FINDING: property={} {} (model-predicted in {} checks of this batch)", prop_s, k, n);
     }
